@@ -290,6 +290,7 @@ class SimProxy(SupervisorProxy):
         self.world = _WORLD
         self.inst = _WORLD.current
         self.fifo = deque()
+        self.ready = deque()     # not-before date of each queued message (time spent in the step that pushed it)
         self.stopped = False
         self.dead = False
         self.next_free = 0.0
@@ -310,12 +311,15 @@ class SimProxy(SupervisorProxy):
         if not self.stopped:
             self.stopped = True
             self.fifo.clear()
+            self.ready.clear()
             self.supvisors.rpc_handler.proxy_server.on_proxy_closing(self.status.identifier)
 
     def push_message(self, message):
         if self.stopped:
             return
         self.fifo.append(message)
+        cur = self.world.current
+        self.ready.append(self.world.now + (cur.step_skew if cur else 0.0))
         self.world.schedule_proxy_step(self)
 
     def _get_proxy(self):
@@ -331,13 +335,18 @@ class SimProxy(SupervisorProxy):
             return
         w = self.world
         message = self.fifo.popleft()
+        ready = self.ready.popleft() if self.ready else 0.0
+        self.inst.step_skew = 0.0
         with w.enter(self.inst):
             try:
                 self.process_event(message)
                 self.waited = False
+                if self.inst.step_skew:
+                    self.next_free = max(self.next_free, w.now + self.inst.step_skew)
             except _Blocked as blk:
                 # link cut: the real thread blocks in the socket layer; retry when the OS gives up
                 self.fifo.appendleft(message)
+                self.ready.appendleft(ready)
                 self.waited = True
                 self.pending_steps += 1
                 self.next_free = w.now + blk.args[0]
@@ -346,6 +355,8 @@ class SimProxy(SupervisorProxy):
                 self.dead = True
                 w.emit('internal_error', where='proxy_thread', inst=self.inst.nick, inc=self.inst.inc,
                        peer=self.status.identifier, tb=traceback.format_exc())
+            finally:
+                self.inst.step_skew = 0.0
 
 
 class SimInstance:
@@ -369,6 +380,7 @@ class SimInstance:
         self.truth = {}       # namespec -> current supervisor state
         self.exit_kind = None
         self.hooks = {}
+        self.step_skew = 0.0
 
     # -- fake OS ---------------------------------------------------------------------------------
     def _life(self, proc):
@@ -626,6 +638,8 @@ class World:
         self.restart_delay = sched.get('restart_delay', (0.5, 3.0))
         self.auto_reboot = scenario.get('auto_reboot', True)
         self.msg_filter = None   # callable(world, src_inst, dst_identifier, method, args) -> 'drop' | None
+        self.puppets = {}        # nick -> scripted peer (L2): object with answer(src, method, args) and latency(method)
+        self.manual = False      # L2: proxy steps are run by the harness, not by the scheduler
         _WORLD = self
 
     # -- context -----------------------------------------------------------------------------------
@@ -649,7 +663,7 @@ class World:
 
     def wall(self):
         cur = self.current
-        return self.now + (cur.spec.get('wall_off', 0.0) if cur else 0.0)
+        return self.now + (cur.spec.get('wall_off', 0.0) + cur.step_skew if cur else 0.0)
 
     def mono(self):
         cur = self.current
@@ -659,7 +673,8 @@ class World:
         if value <= cur.last_mono:
             value = cur.last_mono + 1e-7
         cur.last_mono = value
-        return value
+        # time spent so far in the XML-RPCs of the proxy step being run (seen by that 'thread' only)
+        return value + cur.step_skew
 
     # -- events / observation ---------------------------------------------------------------------
     def emit(self, _kind, **fields):
@@ -858,6 +873,8 @@ class World:
         raise ValueError(kind)
 
     def schedule_proxy_step(self, proxy):
+        if self.manual:
+            return
         dst_nick = self.by_identifier.get(proxy.status.identifier, '?')
         when = max(self.now + self.draw_delay(proxy.inst.nick, dst_nick), proxy.next_free + self.service_time)
         proxy.next_free = when
@@ -878,6 +895,9 @@ class World:
                 self.emit('rpc_drop', **rec)
                 return None
         self.emit('rpc_call', src_inc=src_inst.inc if src_inst else 0, **rec)
+        puppet = self.puppets.get(dst_nick)
+        if puppet is not None:
+            return self.rpc_puppet(puppet, src_inst, rec, proxy)
         # reachability
         if dst is None or not dst.alive or not dst.http_open:
             self.emit('rpc_fail', reason='refused', **rec)
@@ -937,6 +957,25 @@ class World:
             self.emit('rpc_deferred', **rec)
             return deferred
         result = xc.loads(body)[0][0]
+        self.emit('rpc_ret', result=result if self.keep_results(method) else None, **rec)
+        return result
+
+    def rpc_puppet(self, puppet, src_inst, rec, proxy):
+        """ XML-RPC answered by a scripted peer (L2 engine). """
+        method, args = rec['method'], rec['args']
+        try:
+            params, _ = xc.loads(xc.dumps(tuple(args), methodname=method))
+            value = puppet.answer(rec['src'], method, params)
+        except xc.Fault as fault:
+            self.emit('rpc_fault', code=fault.faultCode, text=fault.faultString, **rec)
+            raise
+        except OSError:
+            self.emit('rpc_fail', reason='refused', **rec)
+            raise
+        finally:
+            if src_inst is not None and proxy is not None:
+                src_inst.step_skew += puppet.latency(method)
+        result = xc.loads(xc.dumps((value,), methodresponse=True, allow_none=True))[0][0]
         self.emit('rpc_ret', result=result if self.keep_results(method) else None, **rec)
         return result
 
